@@ -448,9 +448,10 @@ mod cs {
         a.variant == b.variant && a.byron_prefix == b.byron_prefix && eq_bytes1(&a.cbor, &b.cbor)
     }
 
-    pub fn any_state() -> State {
+    /// state kinds lo..hi (0..=3 Idle(..), 4 CanAwait, 5 MustReply, 6 Intersect, 7 Done)
+    pub fn any_state_in(lo: u8, hi: u8) -> State {
         let k: u8 = kani::any();
-        kani::assume(k < 8);
+        kani::assume(lo <= k && k < hi);
         match k {
             0 => State::Idle(Data::New),
             1 => State::Idle(Data::Drained),
@@ -496,6 +497,18 @@ mod cs {
     }
 
     pub fn check(st: &State, msg: &Message) {
+        let r = check_nocover(st, msg);
+        kani::cover!(r && matches!(msg, Message::RollForward(c, _) if c.cbor.len() == 1) && matches!(st, State::MustReply), "RollForward accepted in MustReply");
+        kani::cover!(r && matches!(msg, Message::RollBackward(..)) && matches!(st, State::CanAwait), "RollBackward accepted in CanAwait");
+        kani::cover!(r && matches!(msg, Message::FindIntersect(p) if p.len() == 1), "FindIntersect with one point accepted");
+        kani::cover!(r && matches!(msg, Message::IntersectFound(..)), "IntersectFound accepted");
+        kani::cover!(r && matches!(msg, Message::Done), "Done accepted");
+        kani::cover!(!r && matches!(st, State::Done), "Done accepts nothing");
+        kani::cover!(!r && matches!(st, State::MustReply) && matches!(msg, Message::AwaitReply), "AwaitReply refused in MustReply");
+    }
+
+    /// returns whether the message was accepted
+    pub fn check_nocover(st: &State, msg: &Message) -> bool {
         let want = spec(cls(st), msg);
         let r = st.apply(msg);
         assert!(r.is_ok() == want.is_some(), "accepted exactly when the specification allows the message in this state");
@@ -519,23 +532,41 @@ mod cs {
                 _ => assert!(false, "carried payload has the prescribed shape"),
             }
         }
-        kani::cover!(r.is_ok() && matches!(msg, Message::RollForward(c, _) if c.cbor.len() == 1) && matches!(st, State::MustReply), "RollForward accepted in MustReply");
-        kani::cover!(r.is_ok() && matches!(msg, Message::RollBackward(..)) && matches!(st, State::CanAwait), "RollBackward accepted in CanAwait");
-        kani::cover!(r.is_ok() && matches!(msg, Message::FindIntersect(p) if p.len() == 1), "FindIntersect with one point accepted");
-        kani::cover!(r.is_ok() && matches!(msg, Message::IntersectFound(..)), "IntersectFound accepted");
-        kani::cover!(r.is_ok() && matches!(msg, Message::Done), "Done accepted");
-        kani::cover!(r.is_err() && matches!(st, State::Done), "Done accepts nothing");
-        kani::cover!(r.is_err() && matches!(st, State::MustReply) && matches!(msg, Message::AwaitReply), "AwaitReply refused in MustReply");
+        let ok = r.is_ok();
         core::mem::forget(r);
+        ok
     }
 }
 
-/// chainsync: whole (state, message) table
-/// bound: state in {Idle(New|Drained|NoIntersection(tip)|Content(c,tip)), CanAwait, MustReply, Intersect(0..1 points), Done}, all 8 message variants; points Origin or Specific(any u64, 0..1 byte hash); header content: any variant byte, any optional byron prefix, 0..1 cbor byte; FindIntersect 0..1 points; unwind 3
+macro_rules! cs_class {
+    ($name:ident, $lo:expr, $hi:expr) => {
+        #[kani::proof]
+        #[kani::unwind(3)]
+        fn $name() {
+            let st = cs::any_state_in($lo, $hi);
+            let msg = cs::any_msg();
+            cs::check_nocover(&st, &msg);
+            kani::cover!(cs::spec(cs::cls(&st), &msg).is_none(), "a refused pair is reached");
+            kani::cover!(matches!(&msg, cs::Message::RollForward(c, _) if c.cbor.len() == 1), "RollForward with content reached");
+            kani::cover!(matches!(&msg, cs::Message::FindIntersect(p) if p.len() == 1), "FindIntersect with one point reached");
+            core::mem::forget(st);
+            core::mem::forget(msg);
+        }
+    };
+}
+// bound: chainsync, state class concrete per harness (Idle: New|Drained|NoIntersection(tip)|Content(c,tip) symbolic; Intersect: 0..1 points), all 8 message variants symbolic; points Origin or Specific(any u64, 0..1 byte hash); header content: any variant byte, any optional byron prefix, 0..1 cbor byte; FindIntersect 0..1 points; unwind 3
+cs_class!(c24_q_chainsync_idle, 0, 4);
+cs_class!(c24_q_chainsync_canawait, 4, 5);
+cs_class!(c24_q_chainsync_mustreply, 5, 6);
+cs_class!(c24_q_chainsync_intersect, 6, 7);
+cs_class!(c24_q_chainsync_done, 7, 8);
+
+/// chainsync: whole (state, message) table in one query (state class symbolic as well)
+/// bound: as the c24_q_chainsync_* family with the state class symbolic; unwind 3
 #[kani::proof]
 #[kani::unwind(3)]
-fn c24_q_chainsync() {
-    let st = cs::any_state();
+fn c24_t_chainsync() {
+    let st = cs::any_state_in(0, 8);
     let msg = cs::any_msg();
     cs::check(&st, &msg);
     core::mem::forget(st);
@@ -865,9 +896,10 @@ mod lf {
         }
     }
 
-    pub fn any_state(one: bool) -> State {
+    /// state kinds lo..hi (0..=2 Idle(..), 3 AwaitingBlock, 4 AwaitingBlockTxs, 5 Done)
+    pub fn any_state_in(lo: u8, hi: u8, one: bool) -> State {
         let k: u8 = kani::any();
-        kani::assume(k < 6);
+        kani::assume(lo <= k && k < hi);
         match k {
             0 => State::Idle(None),
             1 => State::Idle(Some((any_point(), Response::Block(any_cbor1())))),
@@ -903,7 +935,8 @@ mod lf {
         }
     }
 
-    pub fn check(st: &State, msg: &Message) {
+    /// returns whether the message was accepted
+    pub fn check_nocover(st: &State, msg: &Message) -> bool {
         let want = spec(cls(st), msg);
         let r = st.apply(msg);
         assert!(r.is_ok() == want.is_some(), "accepted exactly when the specification allows the message in this state");
@@ -924,28 +957,33 @@ mod lf {
                 _ => assert!(false, "carried payload has the prescribed shape"),
             }
         }
-        kani::cover!(r.is_ok() && matches!(msg, Message::BlockRequest(_)), "BlockRequest accepted");
-        kani::cover!(r.is_ok() && matches!(msg, Message::BlockTxsRequest(..)), "BlockTxsRequest accepted");
-        kani::cover!(r.is_ok() && matches!(msg, Message::Block(b) if b.raw_bytes().len() == 1), "Block accepted");
-        kani::cover!(r.is_ok() && matches!(msg, Message::BlockTxs { txs, .. } if txs.len() == 1), "BlockTxs accepted");
-        kani::cover!(r.is_ok() && matches!(msg, Message::Done), "Done accepted");
-        kani::cover!(r.is_err() && matches!(st, State::Done), "Done accepts nothing");
-        kani::cover!(r.is_err() && matches!(st, State::AwaitingBlock(_)), "wrong message refused in AwaitingBlock");
+        let ok = r.is_ok();
         core::mem::forget(r);
+        ok
     }
 }
 
-/// leios-fetch: whole (state, message) table, bitmap selectors empty
-/// bound: state in {Idle(None), Idle(Some(Block)), Idle(Some(BlockTxs 0..1)), AwaitingBlock(p), AwaitingBlockTxs(p, {}), Done}, all 5 message variants, raw CBOR payloads 0..1 byte, tx lists 0..1 elements, Bitmaps = empty BTreeMap; unwind 3
-#[kani::proof]
-#[kani::unwind(3)]
-fn c24_q_leiosfetch() {
-    let st = lf::any_state(false);
-    let msg = lf::any_msg(false);
-    lf::check(&st, &msg);
-    core::mem::forget(st);
-    core::mem::forget(msg);
+macro_rules! lf_class {
+    ($name:ident, $lo:expr, $hi:expr) => {
+        #[kani::proof]
+        #[kani::unwind(3)]
+        fn $name() {
+            let st = lf::any_state_in($lo, $hi, false);
+            let msg = lf::any_msg(false);
+            let ok = lf::check_nocover(&st, &msg);
+            kani::cover!(!ok, "a refused pair is reached");
+            kani::cover!(matches!(&msg, proto::leiosfetch::Message::BlockTxs { txs, .. } if txs.len() == 1), "BlockTxs with one tx reached");
+            kani::cover!(matches!(&msg, proto::leiosfetch::Message::Block(b) if b.raw_bytes().len() == 1), "Block with a body reached");
+            core::mem::forget(st);
+            core::mem::forget(msg);
+        }
+    };
 }
+// bound: leios-fetch, state class concrete per harness (Idle: None|Some(Block)|Some(BlockTxs 0..1) symbolic), all 5 message variants symbolic, raw CBOR payloads 0..1 byte, tx lists 0..1 elements, Bitmaps = empty BTreeMap; unwind 3
+lf_class!(c24_q_leiosfetch_idle, 0, 3);
+lf_class!(c24_q_leiosfetch_awaitingblock, 3, 4);
+lf_class!(c24_q_leiosfetch_awaitingblocktxs, 4, 5);
+lf_class!(c24_q_leiosfetch_done, 5, 6);
 
 /// leios-fetch: the two transitions that clone a Bitmaps selector, with a one-entry BTreeMap
 /// bound: (Idle(None), BlockTxsRequest(p, {k: v})) and (AwaitingBlockTxs(p, {k: v}), BlockTxs{point, {k': v'}, 0..1 txs}), k any u16, v any u64; unwind 4
